@@ -46,19 +46,19 @@ fn prepare_script(script: &str, bind: BindFn) -> Result<Prepared, (String, Strin
     Ok(Prepared { call, script: script.to_string(), _pkg: pkg, _rt: rt })
 }
 
-pub fn radices(doms: &[Vec<V>]) -> Vec<u64> {
-    doms.iter().map(|d| d.len() as u64).collect()
+pub fn radices<D: AsRef<[V]>>(doms: &[D]) -> Vec<u64> {
+    doms.iter().map(|d| d.as_ref().len() as u64).collect()
 }
 
 /// number of argument tuples
-pub fn total(doms: &[Vec<V>]) -> u64 {
-    doms.iter().map(|d| d.len() as u64).product()
+pub fn total<D: AsRef<[V]>>(doms: &[D]) -> u64 {
+    doms.iter().map(|d| d.as_ref().len() as u64).product()
 }
 
 /// the `sub`-th argument tuple (last parameter varies fastest)
-pub fn args_at(doms: &[Vec<V>], sub: u64) -> Vec<V> {
+pub fn args_at<D: AsRef<[V]>>(doms: &[D], sub: u64) -> Vec<V> {
     let idx = vcore::util::decode(sub, &radices(doms));
-    idx.iter().zip(doms).map(|(i, d)| d[*i as usize].clone()).collect()
+    idx.iter().zip(doms).map(|(i, d)| d.as_ref()[*i as usize].clone()).collect()
 }
 
 /// the literal case, as written into violations, samples and replays
@@ -79,12 +79,12 @@ pub fn case_json_script(op: &Op, script: &str, args: &[V], via: &str) -> J {
 
 /// Split `0..n0` (the first parameter's domain) into chunks so that a unit
 /// has about `target` cases; returns (lo, hi) ranges of first-parameter indices.
-pub fn chunks(doms: &[Vec<V>], target: u64) -> Vec<(u64, u64)> {
+pub fn chunks<D: AsRef<[V]>>(doms: &[D], target: u64) -> Vec<(u64, u64)> {
     if doms.is_empty() {
         return vec![(0, 1)];
     }
-    let n0 = doms[0].len() as u64;
-    let inner: u64 = doms[1..].iter().map(|d| d.len() as u64).product();
+    let n0 = doms[0].as_ref().len() as u64;
+    let inner: u64 = doms[1..].iter().map(|d| d.as_ref().len() as u64).product();
     let per = (target / inner.max(1)).clamp(1, n0.max(1));
     let mut v = vec![];
     let mut lo = 0;
@@ -97,17 +97,17 @@ pub fn chunks(doms: &[Vec<V>], target: u64) -> Vec<(u64, u64)> {
 }
 
 /// sub-case range of a chunk
-pub fn sub_range(doms: &[Vec<V>], lo: u64, hi: u64) -> (u64, u64) {
+pub fn sub_range<D: AsRef<[V]>>(doms: &[D], lo: u64, hi: u64) -> (u64, u64) {
     if doms.is_empty() {
         return (0, 1);
     }
-    let inner: u64 = doms[1..].iter().map(|d| d.len() as u64).product();
+    let inner: u64 = doms[1..].iter().map(|d| d.as_ref().len() as u64).product();
     (lo * inner, hi * inner)
 }
 
 /// Split the whole cross product into contiguous sub-case ranges of at most
 /// `target` cases.
-pub fn sub_chunks(doms: &[Vec<V>], target: u64) -> Vec<(u64, u64)> {
+pub fn sub_chunks<D: AsRef<[V]>>(doms: &[D], target: u64) -> Vec<(u64, u64)> {
     let n = total(doms);
     let mut v = vec![];
     let mut lo = 0;
